@@ -4,6 +4,7 @@ import RedisVerif.Model.SimHarness
 import RedisVerif.Lemmas.Sim
 import RedisVerif.Model.SimMore
 import RedisVerif.Lemmas.SimMore
+import RedisVerif.Model.SimCluster
 
 /-!
 # C20 — Simulation is reproducible: same seed, same trace, same verdict
@@ -40,7 +41,7 @@ claimed here is different (DESIGN §4 C20):
 namespace RedisVerif
 namespace C20
 
-open SimRng SimKernel SimHarness SimLemmas SimMore SimMoreLemmas
+open SimRng SimKernel SimHarness SimLemmas SimMore SimMoreLemmas SimCluster
 
 /-! ## T3 — the RNG wrappers -/
 
@@ -736,6 +737,151 @@ theorem result_stats_independent_of_earlier_runs : C20_result_stats_independent_
   fun _ _ _ => rfl
 
 example : finalizeStats false [(0, 31)] [(0, 31)] = [(0, 62)] ∧ finalizeStats true [(0, 31)] [(0, 31)] = [(0, 31)] := by decide
+
+
+/-! ## T5 — `MultiNodeSimulation` / `run_partition_test` (Model/SimCluster)
+
+The cluster simulation iterates a `HashMap` at two places that reach its output: the keys
+`get_keys_in_buckets` selects for an anti-entropy exchange (the receiver's Lamport clock advances
+once per delta, so their ORDER is observable) and the routing table of a selective gossip round
+(`send_deltas` draws loss and delay per target).  Both orders are explicit parameters of the model
+(`pi`, `rho`: any function that lists what it is given in some order). -/
+
+/-- `f` lists what it is given in some order -/
+def IsOrder (f : List Nat → List Nat) : Prop := ∀ l, (f l).Perm l
+
+theorem isOrder_id : IsOrder id := fun l => List.Perm.refl l
+theorem isOrder_reverse : IsOrder List.reverse := fun l => List.reverse_perm l
+
+/-- full strength: one anti-entropy exchange (`run_anti_entropy_sync`) leaves the same cluster state
+    whatever order the two `replicated_keys` maps are iterated in.  Parameter: the variant of
+    `get_keys_in_buckets` (`true` = current code: selected keys sorted, dc1be9d). -/
+def C20_mn_sync_independent_of_map_order (sorted : Bool) : Prop :=
+  ∀ (pi pi' : List Nat → List Nat), IsOrder pi → IsOrder pi' → ∀ (c : Cfg) (s : MN) (a b : Nat),
+    (MN.sync (selectKeys sorted pi c.perSync) c s a b).nodes = (MN.sync (selectKeys sorted pi' c.perSync) c s a b).nodes
+
+theorem selectKeys_sorted_order_independent (pi pi' : List Nat → List Nat) (h : IsOrder pi) (h' : IsOrder pi') (per : Nat) :
+    selectKeys true pi per = selectKeys true pi' per := by
+  funext inB m
+  unfold selectKeys
+  simp only [if_true]
+  rw [sortNat_perm_invariant _ _ (((h m.keys).trans (h' m.keys).symm).filter _)]
+
+theorem mn_sync_order_independent : C20_mn_sync_independent_of_map_order true := by
+  intro pi pi' h h' c s a b
+  rw [selectKeys_sorted_order_independent pi pi' h h']
+
+/-- a cluster state with a hand-built generator (never consulted by an anti-entropy exchange):
+    node 0 wrote two keys (stamps 1 and 2), node 1 knows nothing -/
+def mnTwoKeys : MN :=
+  { rng := rngConst 0,
+    nodes := [{ clock := 2, keys := [(0, ⟨some 1, 1, 1⟩), (1, ⟨some 2, 2, 1⟩)] }, {}] }
+
+def cfgTwo : Cfg := ⟨2, F64.ofBits 0, 1, 10, true, false, 100, 1000, #[(0x6b30, 3, []), (0x6b31, 200, [])]⟩
+
+/-- the pinned code: the receiver's Lamport clock is `max(local, remote) + 1` per delta, so the
+    order in which the sender's map yields the two keys is observable: 3 when the older stamp comes
+    first, 4 when the newer one does (was `C20:trace-differs-across-processes:multi-node:lamport-clock-after-anti-entropy`,
+    fixed: dc1be9d) -/
+theorem mn_sync_depends_on_map_order_counterexample : ¬ C20_mn_sync_independent_of_map_order false := by
+  intro h
+  have := congrArg (fun ns => ns.map (·.clock)) (h id List.reverse isOrder_id isOrder_reverse cfgTwo mnTwoKeys 0 1)
+  revert this
+  decide
+
+/-- non-vacuity of the sorted statement on the same data: both orders give clock 3, both keys cross -/
+example : ((MN.sync (selectKeys true List.reverse 1000) cfgTwo mnTwoKeys 0 1).nodes.map fun nd => (nd.clock, nd.keys.keys)) = [(2, [0, 1]), (3, [0, 1])] := by
+  decide
+
+/-- full strength: a selective gossip round leaves the same cluster state and the same messages in
+    flight whatever order the routing table is visited in.  Parameter: the variant of `gossip_round`
+    (`true` = current code: routes sorted by target, 7f8c4c6). -/
+def C20_mn_gossip_independent_of_route_order (sorted : Bool) : Prop :=
+  ∀ (rho rho' : List Nat → List Nat), IsOrder rho → IsOrder rho' → ∀ (c : Cfg) (s : MN),
+    (MN.gossipRound (routeOrder sorted rho) c s).queue.map (fun m => (m.src, m.dst, m.at_)) =
+    (MN.gossipRound (routeOrder sorted rho') c s).queue.map (fun m => (m.src, m.dst, m.at_))
+
+theorem routeOrder_sorted_order_independent (rho rho' : List Nat → List Nat) (h : IsOrder rho) (h' : IsOrder rho') :
+    routeOrder true rho = routeOrder true rho' := by
+  funext ts
+  unfold routeOrder
+  simp only [if_true]
+  rw [sortNat_perm_invariant _ _ ((h ts).trans (h' ts).symm)]
+
+theorem mn_gossip_route_order_independent : C20_mn_gossip_independent_of_route_order true := by
+  intro rho rho' h h' c s
+  rw [routeOrder_sorted_order_independent rho rho' h h']
+
+/-- generator buffer `0, 0, 7, 0, 0, …`: the 64-bit words are 0, 7, 0, 0, … -/
+def rngSecondSeven : Rng :=
+  { key := Vector.replicate 8 0, ctr := 0, buf := (Vector.replicate 64 0).set 2 7, idx := 0 }
+
+/-- three nodes, selective routing; node 0 has one pending delta of a key owned by nodes 1 and 2 -/
+def mnRoutes : MN :=
+  { rng := rngSecondSeven,
+    nodes := [{ clock := 1, keys := [(0, ⟨some 1, 1, 1⟩)], pending := [(0, ⟨some 1, 1, 1⟩)] }, {}, {}] }
+
+def cfgRoutes : Cfg := ⟨3, F64.ofBits 0, 1, 10, true, true, 100, 1000, #[(0x6b30, 3, [1, 2])]⟩
+
+set_option maxRecDepth 8000 in
+/-- the pinned code: `send_deltas` draws the delay per target in the order the routing table yields
+    them — the FIRST target visited gets the second word of the stream (delay 8), the other one the
+    fourth (delay 1): which message is delivered when depends on the map order (was
+    `C20:trace-differs-across-processes:multi-node:routing-table-order-in-gossip-round`, fixed: 7f8c4c6) -/
+theorem mn_gossip_depends_on_route_order_counterexample : ¬ C20_mn_gossip_independent_of_route_order false := by
+  intro h
+  have := h id List.reverse isOrder_id isOrder_reverse cfgRoutes mnRoutes
+  revert this
+  decide
+
+set_option maxRecDepth 8000 in
+/-- non-vacuity of the sorted statement on the same data: target 1 is served first whatever the map says -/
+example : (MN.gossipRound (routeOrder true List.reverse) cfgRoutes mnRoutes).queue.map (fun m => (m.src, m.dst, m.at_)) = [(0, 1, 8), (0, 2, 1)] := by
+  decide
+
+/-- full strength, whole run: the trace of a cluster scenario — every scripted step's reply, Lamport
+    clocks, pending queues, in-flight messages, the closing lines with winners, stamps and verdicts —
+    is the same for any two iteration orders of the replica maps and any two visiting orders of the
+    routing tables; any seed, configuration, script (also the scripts of `run_partition_test`).
+    Parameters: the variants of `get_keys_in_buckets` and `gossip_round` (`true true` = current code). -/
+def C20_mn_run_independent_of_map_orders (sortsSync sortsRoutes : Bool) : Prop :=
+  ∀ (pi pi' rho rho' : List Nat → List Nat), IsOrder pi → IsOrder pi' → IsOrder rho → IsOrder rho' →
+    ∀ (c : Cfg) (style seed : Nat) (script : List Op) (fin : List Nat) (during after : Nat),
+      runWith sortsSync sortsRoutes pi rho c style seed script fin during after =
+      runWith sortsSync sortsRoutes pi' rho' c style seed script fin during after
+
+theorem mn_run_order_independent : C20_mn_run_independent_of_map_orders true true := by
+  intro pi pi' rho rho' h h' g g' c style seed script fin during after
+  unfold runWith
+  rw [selectKeys_sorted_order_independent pi pi' h h', routeOrder_sorted_order_independent rho rho' g g']
+
+/-- `run_partition_test` collects its test keys into a `HashSet` and asks `all(check_key_convergence)`:
+    the verdict of a convergence round does not depend on the order the set is visited in -/
+theorem partition_test_keys_order_independent (s : MN) (keys keys' : List Nat) (h : keys.Perm keys') :
+    keys.all s.keyConverged = keys'.all s.keyConverged := by
+  induction h with
+  | nil => rfl
+  | cons x _ ih => simp only [List.all_cons, ih]
+  | swap x y l => simp only [List.all_cons]; cases s.keyConverged x <;> cases s.keyConverged y <;> rfl
+  | trans _ _ ih1 ih2 => exact ih1.trans ih2
+
+/-- the receiver's clock after a batch of deltas: the pinned defect in one line -/
+example : (({} : Node).applyAll [(0, ⟨some 1, 1, 1⟩), (1, ⟨some 2, 2, 1⟩)]).clock = 3 ∧
+    (({} : Node).applyAll [(1, ⟨some 2, 2, 1⟩), (0, ⟨some 1, 1, 1⟩)]).clock = 4 := by decide
+
+/-- `ReplicatedValue::merge` keeps the larger stamp, ties (same time, same replica: the same write) keep the local one -/
+theorem rv_merge_table (v w : Option Nat) :
+    RV.merge ⟨v, 5, 1⟩ ⟨w, 6, 1⟩ = ⟨w, 6, 1⟩ ∧ RV.merge ⟨v, 6, 1⟩ ⟨w, 5, 2⟩ = ⟨v, 6, 1⟩ ∧
+    RV.merge ⟨v, 5, 1⟩ ⟨w, 5, 2⟩ = ⟨w, 5, 2⟩ ∧ RV.merge ⟨v, 5, 2⟩ ⟨w, 5, 2⟩ = ⟨v, 5, 2⟩ := by
+  simp [RV.merge, stampGt]
+
+/-- `enforce_pending_capacity` keeps the NEWEST `cap` deltas -/
+theorem cap_pending_keeps_newest (cap : Nat) (p : List Delta) :
+    (capPending cap p).length = min cap p.length ∧ (capPending cap p) <:+ p := by
+  unfold capPending
+  refine ⟨by simp only [List.length_drop]; omega, List.drop_suffix _ _⟩
+
+example : capPending 2 [(0, ⟨some 1, 1, 1⟩), (1, ⟨some 2, 2, 1⟩), (2, ⟨some 3, 3, 1⟩)] = [(1, ⟨some 2, 2, 1⟩), (2, ⟨some 3, 3, 1⟩)] := by decide
 
 end C20
 end RedisVerif
